@@ -69,7 +69,7 @@ fn parse_list_declaration(input: &str) -> Result<ListDeclaration, CompilerError>
                 (item, false)
             };
         // Check for explicit value assignment: `name = number`
-        if let Some((item_name, item_value)) = inner.split_once('=') {
+        let item_name = if let Some((item_name, item_value)) = inner.split_once('=') {
             let item_name = item_name.trim().to_owned();
             let explicit_value: u32 = item_value.trim().parse().map_err(|_| {
                 CompilerError::invalid_source(format!(
@@ -78,10 +78,17 @@ fn parse_list_declaration(input: &str) -> Result<ListDeclaration, CompilerError>
                 ))
             })?;
             value = explicit_value;
-            items.push((item_name, value, selected));
+            item_name
         } else {
-            items.push((inner.to_owned(), value, selected));
+            inner.to_owned()
+        };
+        // The runtime keeps the value of a list item in an i32.
+        if value > i32::MAX as u32 {
+            return Err(CompilerError::invalid_source(format!(
+                "LIST item value out of range: '{item_name} = {value}'"
+            )));
         }
+        items.push((item_name, value, selected));
         value += 1;
     }
 
